@@ -69,6 +69,7 @@ def main():
         "v1: a cancelled query is dropped from the model at once; the code drops it at the next write (it is never executed again nor observable in between)",
         "deadliner.Add's return value is ignored by the code (a store for an already expired duty is kept); expiry is whatever the deadliner channel delivers",
         "harness histories are quiescent between operations (synctest.Wait) except inside 'par' operations (readers racing with one Store under the Go scheduler); the theorems cover all interleavings of the atomic steps, and C17_v1/v2_quiescent_outcome shows the observable outcome at the next quiescent point does not depend on the schedule",
+        "a read cancelled by its own context is rendered LQuery;LCancel (v1) / LAwait;LCancel2 (v2) also when the cancellation won before the query reached the store (same model state); the models accept both outcomes of the cancel-vs-ready-answer race, and a store/loop that stops responding afterwards is reported as wedged-after-cancelled-read-<impl>",
         "v2 internal labels (LWake, LLookup .. None of still-blocked readers) and the iteration order of a failed multi-entry Store are inferred from the observations (returned readers, probe reads), not observed individually",
     ]
     R.proofs()
@@ -107,7 +108,8 @@ def main():
     R.coverage["rule"] = ("histories of await/store/cancel/expire/par operations (par = up to 8 readers started concurrently with one Store) run against BOTH aggsigdb.NewMemDB and "
                           "aggsigdb.NewMemDBV2 (go db.Run) with a scripted core.Deadliner in a synctest bubble; real core.SignedData values (VersionedAttestation, SignedSyncMessage, SignedRandao, "
                           "SyncCommitteeSelection keyed by subcommittee); kinds: corpus (minimised F3 histories first), random, waiters (2..8 readers blocked on <=2 keys, then stores), "
-                          "partial (multi-entry Store with a conflicting entry while readers wait for the others), expiry (expire then re-store other data), par; "
+                          "partial (multi-entry Store with a conflicting entry while readers wait for the others), expiry (expire then re-store other data), par, "
+                          "cancelrace (10..40 reads, mostly of PRESENT keys, whose context cancels itself during its k-th Done()/Err() call, k=1..4, each followed by a liveness check of the database loop, then a probe = Store+Await of a fresh key that must both complete; every Store runs in its own goroutine so a hanging Store is observed, not a harness deadlock); "
                           "non-trivial = at least 2 readers were blocked at the moment of some store; distinct by hash of (implementation, observed label sequence)")
     kinds, impls, blocked_hist = {}, {}, {}
     lab_counts = {k: 0 for k in LABEL_KINDS}
